@@ -1,0 +1,7 @@
+// Package simhook provides scheduling seams for deterministic simulation testing.
+//
+// Without the "verif" build tag every function in this package is an empty function that the compiler removes,
+// so the behaviour of the library is unchanged.
+// With the tag, the functions call Handler (if one is installed) which lets an external simulator decide when the
+// calling goroutine proceeds.
+package simhook
